@@ -74,6 +74,16 @@ func shimOverlay(repoDir, dir string) (map[string]string, error) {
 		}
 		changed := false
 		ast.Inspect(f, func(n ast.Node) bool {
+			// a variable declared as *gzip.Writer receives the wrapper
+			if st, ok := n.(*ast.StarExpr); ok {
+				if sel, ok := st.X.(*ast.SelectorExpr); ok {
+					if id, ok := sel.X.(*ast.Ident); ok && id.Name == "gzip" && sel.Sel.Name == "Writer" {
+						st.X = ast.NewIdent("vfsGz")
+						changed = true
+						return false
+					}
+				}
+			}
 			call, ok := n.(*ast.CallExpr)
 			if !ok {
 				return true
